@@ -126,7 +126,7 @@ inline("spsdk.image.bee:BeeRegionHeader.__init__", "spsdk.image.bee:BeeNxp.__ini
 ENGINE = DictOf(bee_cfg=DictOf(user_key=Const("0123456789abcdeffedcba9876543210")))
 
 
-@contract("spsdk.image.bee:BeeNxp.load_from_config")
+@contract("spsdk.image.bee:BeeNxp.load_from_config", replay=False)
 def _(config: DictOf(input_binary=Const("app.bin"), engine_selection=Const("both"), bee_engine=ListOf(ENGINE, 2), base_address=Const(0x60001000)),
       search_paths: Const(None)) -> Opaque():
     ensures(drawn_tick(result.headers[0]._kib.kib_key) >= 0 and drawn_tick(result.headers[1]._kib.kib_key) >= 0
